@@ -20,8 +20,9 @@ Inductive top :=
 | TDropTx (ch slot : nat)
 | TChanInfo (ch : nat)                     (* len(), is_closed(), send-side available permits *)
 | TAcq (tag : N) (strict : bool) (s : nat) (n : N)   (* acquire_many(n).await / lock().await / read().await / write().await; strict = the
-                                                         wrapper treats a closed semaphore as unreachable!() *)
-| TTry (tag : N) (s : nat) (n : N)         (* try_acquire_many / try_lock / try_read / try_write *)
+                                                         wrapper (Mutex, RwLock) treats a closed semaphore as unreachable!();
+                                                         not strict = Semaphore::acquire_many with its zero-permit path *)
+| TTry (tag : N) (zok : bool) (s : nat) (n : N)      (* try_acquire_many (zok: with its zero-permit path) / try_lock / try_read / try_write *)
 | TAdd (s : nat) (n : N)                   (* add_permits *)
 | TRel (s : nat)                           (* drop of the most recent permit / guard of s held by the body *)
 | TForget (s : nat)                        (* SemaphorePermit::forget of the most recent permit of s *)
@@ -166,11 +167,24 @@ Fixpoint tcomp (fuel : nat) (jt : nat) (bodies : list (list top)) (b : nat) (ctx
                     (fun a => Log TG_CHANINFO a (go r hs js held fs ahs))
                 else misuse)
          | TAcq tag strict s n =>
-           acquire_ctx ctx jt s n (fun ok =>
-             if ok then Log tag [1%N] (go r hs js ((s, n) :: held) fs ahs)
-             else if strict then Panic                                   (* unreachable!() *)
-             else Log tag [0%N] (go r hs js held fs ahs))
-         | TTry tag s n =>
+           let acq := fun k =>
+             acquire_ctx ctx jt s k (fun ok =>
+               if ok then Log tag [1%N] (go r hs js ((s, n) :: held) fs ahs)
+               else if strict then Panic                                   (* unreachable!() *)
+               else Log tag [0%N] (go r hs js held fs ahs)) in
+           if negb strict && N.eqb n 0 then
+             (* Semaphore::acquire_many(0): `if permits == 0 && !is_closed() { return Ok(empty permit) }`, no scheduling
+                point; on a closed semaphore `acquire(permits.max(1))` reports the closure *)
+             atomic_b (fun e st => match sem_closed_at st s with Some c => Some (e, st, c) | None => None end)
+               (fun closed => if closed then acq 1%N else Log tag [1%N] (go r hs js ((s, n) :: held) fs ahs))
+           else acq n
+         | TTry tag zok s n =>
+           if zok && N.eqb n 0 then
+             (* Semaphore::try_acquire_many(0): Closed or an empty permit, no scheduling point *)
+             atomic_b (fun e st => match sem_closed_at st s with Some c => Some (e, st, c) | None => None end)
+               (fun closed => if closed then Log tag [n_of_acq AClosed] (go r hs js held fs ahs)
+                              else Log tag [n_of_acq AOk] (go r hs js ((s, n) :: held) fs ahs))
+           else
            sem_try_code s n (fun res => Log tag [n_of_acq res]
                                (go r hs js (match res with AOk => (s, n) :: held | _ => held end) fs ahs))
          | TAdd s n => sem_release_code s n (Log TG_ADD [] (go r hs js held fs ahs))
